@@ -51,7 +51,7 @@ def run(ctx):
                 "(bit-exact) and vs the model. Non-trivial: bunch b>=1 with non-zero data and a non-zero offset field.")
     ctx.rule += (" fp cases: nb 2..3, both stencils, four variants, 1..3 applications: slice b vs the single-bunch run "
                  "(bit-exact on the implementation), tables equal, and vs the model. Non-trivial: b>=1, non-zero data, variant != none."
-                 " rf cases: RF (linear, sinusoidal) and drift offset vectors of nb 2..3 maps block by block, multi-bunch RF+drift iteration vs the single-bunch run of every slice (bit-exact).")
+                 " rf cases: RF (linear, sinusoidal) and drift offset vectors of nb 2..3 maps block by block (hand-written model and the model generated from RFKickMap.cpp / DriftMap.cpp, Gen_RFDrift), multi-bunch RF+drift iteration vs the single-bunch run of every slice (bit-exact).")
     ctx.rule += (" run cases (family run): nb 2..4 bunches, 1..5 full steps in main()'s order at API level (WakePotentialMap on a real ElectricField "
                  "with bucket patterns incl. gaps | Identity; RF kick; drift; Fokker-Planck both stencils | Identity): offset vector after update() = "
                  "wake potential; slice b after every step vs the single-bunch run of that slice kicked by bunch b's own potential (bit-exact); identical "
@@ -95,6 +95,15 @@ def run(ctx):
     dis += ident_cases.ident_subcheck(ctx, "C08")
     dis += run_cases.c08_program_subcheck(ctx)
     ctx.extra["correspondence_disagreements"] = len(dis)
+    # downgrade rule of DESIGN 2.2 for the offset-field translator (family rfgen): see lib/props/C03.py; here the rf sub-check
+    # has compared every block of both offset vectors with the hand-written and with the last-good generated model
+    failed = [g for g, st in coq["gen"].items() if st.startswith("failed")]
+    if failed == ["Gen_RFDrift"] and coq["make_ok"] and coq["props"]["ok"] and not coq["forbidden"] and coq["extract_ok"] \
+            and not dis and not ctx.violations and ctx.evaluations > 0:
+        ctx.extra["translators"]["Gen_RFDrift"] = "downgraded-to-correspondence (" + coq["gen"]["Gen_RFDrift"][:200] + ")"
+        ctx.notes.append("Gen_RFDrift: translator failed; the last-good generated offset fields and the hand-written model agree with the "
+                         "implementation on every block of every case of this run and every oracle holds: downgraded to tie 2")
+        coq = dict(coq, ok=True)
     ctx.assumptions += ["kick maps (KickMap::apply both directions), the Fokker-Planck map, the RF/drift constructors' per-bunch offset blocks, "
                         "WakePotentialMap::update's copy and the run of any number of steps in main()'s order (exact-arithmetic model; wake potentials are "
                         "inputs of the run model: what the field computes for a bunch is C06); renormalisation between steps is C09's per-bunch statement "
